@@ -99,7 +99,7 @@ def gen_cases(tier: str, seed: int) -> List[Dict]:
     settings = [dict(zip(OPTS, bits)) for bits in itertools.product([True, False], repeat=4)]
     cases: List[Dict] = []
     n = 0
-    reps = 12 if quick else 150
+    reps = 12 if quick else 1500
     name_sets = [("q0",), ("q0", "q1"), ("q1", "q2"), ("q0", "q1", "q2"), ("q2", "q10")]
     shapes = [(), (2,), (1, 2), (2, 2)] if quick else [(), (1,), (2,), (3,), (1, 2), (2, 1), (2, 2), (2, 1, 2)]
     k = 0
